@@ -23,12 +23,136 @@ ASSUMPTIONS = [
 PA = ["a", "b", "*", "?", "[", "]", "!", "-", "\\", ".", "^"]
 SA = ["a", "b", "-", ".", "[", "]", "!", "\\", "^", "/", "\n"]
 libc = ctypes.CDLL("libc.so.6")
-libc.fnmatch.argtypes = [ctypes.c_char_p, ctypes.c_char_p, ctypes.c_int]
 FNM_CASEFOLD = 1 << 4
 
 
 def cps(s):
     return ".".join(str(ord(c)) for c in s) if s else "-"
+
+
+POSIX_CLASSES = {
+    "alpha": lambda c: c.isascii() and c.isalpha(), "digit": lambda c: c in "0123456789", "alnum": lambda c: c.isascii() and c.isalnum(),
+    "upper": lambda c: c.isascii() and c.isupper(), "lower": lambda c: c.isascii() and c.islower(), "space": lambda c: c in " \t\n\v\f\r",
+    "blank": lambda c: c in " \t", "punct": lambda c: c.isascii() and c.isprintable() and not c.isalnum() and c != " ",
+    "print": lambda c: " " <= c <= "~", "graph": lambda c: "!" <= c <= "~", "cntrl": lambda c: c < " " or c == "\x7f",
+    "xdigit": lambda c: c in "0123456789abcdefABCDEF"}
+ASCII_ONLY = ("digit", "punct", "xdigit", "print", "graph", "cntrl", "blank")
+
+
+def posix_pieces(p):
+    """the pattern read strictly by the POSIX text (XCU 2.13 with XBD 9.3.5): a list of ("lit", c) | ("any",) | ("star",) |
+    ("set", neg, members) - or None when it can match nothing (final backslash) - or "unknown" where this reference does not decide
+    (collating symbols, equivalence classes, a backslash or an odd range inside a bracket)"""
+    out, i, n = [], 0, len(p)
+    while i < n:
+        c = p[i]
+        if c == "\\":
+            if i + 1 >= n:
+                return None
+            out.append(("lit", p[i + 1]))
+            i += 2
+        elif c == "?":
+            out.append(("any",))
+            i += 1
+        elif c == "*":
+            out.append(("star",))
+            i += 1
+        elif c == "[":
+            j = i + 1
+            neg = j < n and p[j] in "!^"
+            if neg:
+                j += 1
+            members, first, ok = [], True, None
+            k = j
+            while k < n:
+                ch = p[k]
+                if ch == "]" and not first:
+                    ok = True
+                    break
+                first = False
+                if ch == "\\":
+                    return "unknown"
+                if ch == "[" and k + 1 < n and p[k + 1] in ".=:":
+                    if p[k + 1] != ":":
+                        return "unknown"
+                    e = p.find(":]", k + 2)
+                    if e < 0 or p[k + 2:e] not in POSIX_CLASSES:
+                        ok = False               # no bracket expression here: the "[" stands for itself
+                        break
+                    members.append(("class", p[k + 2:e]))
+                    k = e + 2
+                    if k < n and p[k] == "-" and k + 1 < n and p[k + 1] != "]":
+                        return "unknown"
+                    continue
+                if k + 2 < n and p[k + 1] == "-" and p[k + 2] != "]":
+                    lo, hi = ch, p[k + 2]
+                    if hi == "[" or lo > hi or hi == "\\":
+                        return "unknown"
+                    members.append(("range", lo, hi))
+                    k += 3
+                    if k < n and p[k] == "-" and k + 1 < n and p[k + 1] != "]":
+                        return "unknown"
+                    continue
+                members.append(("char", ch))
+                k += 1
+            if ok:
+                out.append(("set", neg, members))
+                i = k + 1
+            else:
+                out.append(("lit", "["))
+                i += 1
+        else:
+            out.append(("lit", c))
+            i += 1
+    return out
+
+
+def piece_ok(pc, c):
+    if pc[0] == "lit":
+        return c == pc[1]
+    if pc[0] == "any":
+        return True
+    hit = False
+    for m in pc[2]:
+        if m[0] == "char":
+            hit = hit or c == m[1]
+        elif m[0] == "range":
+            hit = hit or m[1] <= c <= m[2]
+        else:
+            if not c.isascii() and m[1] not in ASCII_ONLY:
+                return None                       # what a locale counts as alphabetic beyond ASCII is not this reference's business
+            hit = hit or POSIX_CLASSES[m[1]](c)
+    return hit != pc[1]
+
+
+def posix_fnmatch(pieces, s):
+    """True / False, or None where a class on a character beyond ASCII would decide"""
+    reach = {0}
+    for c_i in range(len(s) + 1):
+        # close under stars
+        changed = True
+        while changed:
+            changed = False
+            for st in list(reach):
+                if st < len(pieces) and pieces[st][0] == "star" and st + 1 not in reach:
+                    reach.add(st + 1)
+                    changed = True
+        if c_i == len(s):
+            break
+        nxt = set()
+        for st in reach:
+            if st >= len(pieces):
+                continue
+            if pieces[st][0] == "star":
+                nxt.add(st)
+            else:
+                r = piece_ok(pieces[st], s[c_i])
+                if r is None:
+                    return None
+                if r:
+                    nxt.add(st + 1)
+        reach = nxt
+    return len(pieces) in reach
 
 
 def guarded(p):
@@ -56,8 +180,8 @@ def guarded(p):
                     if p[k + 1] != ":":
                         return False
                     e = p.find(":]", k + 2)
-                    if e < 0:
-                        return False
+                    if e < 0 or p[k + 2:e] not in POSIX_CLASSES:
+                        return False            # ill-formed or not a POSIX class name: the strict reference below decides
                     k = e + 2
                     continue
                 if p[k] == "]":
@@ -100,7 +224,8 @@ def gen(ctx):
             pats.append("".join(tup))
     extra = 40000 if ctx.thorough else 3000
     pieces = ["a", "b", "A", "*", "?", "[ab]", "[!ab]", "[a-b]", "[]a]", "[!]]", "[[:alpha:]]", "[[:digit:][:upper:]]", "[a-b.]", "[", "]", "!",
-              "\\*", "\\?", "\\[", "\\\\", "\\a", ".", "^", "$", "(", "+", "{", "|", "[--.]", "[!-]", "[a-]", "[.-a]", "\\"]
+              "\\*", "\\?", "\\[", "\\\\", "\\a", ".", "^", "$", "(", "+", "{", "|", "[--.]", "[!-]", "[a-]", "[.-a]", "\\",
+              "[[:", ":]", "[:", "[[:]", "[[:a]", "[^]a]", "[^a]", "[[:digit:]]", "[![:digit:]]", "[[:punct:]]", "[[:word:]]", "[[:alpha:]", "[[:a:b]", "[[:a:\u00e9]", ":", "x"]
     for _ in range(extra):
         pats.append("".join(rng.choice(pieces) for _ in range(rng.randint(1, 6))))
     for _ in range(extra // 3):
@@ -110,7 +235,8 @@ def gen(ctx):
     for n in range(0, slen + 1):
         for tup in itertools.product(SA, repeat=n):
             subs.append("".join(tup))
-    sa2 = SA + ["A", "B", "0", "$", "(", "+"]
+    subs += [":", "[:", ":]", "[:]", "[]", ":x]", "[:x]", "[a", "[\u00e9", "3", "\u0663", "\uff13", "$", "w", "[:a]", "a]", "ab]", "[a:b]", "x[:]abc"]
+    sa2 = SA + ["A", "B", "0", "$", "(", "+", ":"]
     for _ in range(300):
         subs.append("".join(rng.choice(sa2) for _ in range(rng.randint(slen + 1, 7))))
     return pats, subs
@@ -149,8 +275,11 @@ def run(ctx):
         if itext != (mtext if "2" not in mcodes else "panic") and not (itext == "panic" and "2" in mcodes):
             bad.append((p, ci, "regex text", itext, mtext))
             continue
-        if "2" not in mcodes and ibits != mcodes:
-            k = next(k for k in range(len(subs)) if ibits[k:k + 1] != mcodes[k])
+        # the model's classes are the ASCII ones; which characters beyond ASCII a locale counts as alphabetic etc. is left open
+        locale_class = any("[:%s:]" % nm in p for nm in POSIX_CLASSES if nm not in ("digit", "punct"))
+        diff = [k for k in range(len(subs)) if ibits[k:k + 1] != mcodes[k] and not (locale_class and not subs[k].isascii())] if "2" not in mcodes else []
+        if diff:
+            k = diff[0]
             bad.append((p, ci, subs[k], ibits[k:k + 1], mcodes[k]))
             continue
         if ci and ("-" in p or "[:" in p):
@@ -159,12 +288,27 @@ def run(ctx):
             pb = p.encode()
             fl = FNM_CASEFOLD if ci else 0
             for k, sb in enumerate(subs_b):
-                if ci and any(c > 127 for c in sb):
-                    continue
+                if any(c > 127 for c in sb):
+                    continue                  # glibc falls back to bytes there ("??" matches one two-byte character)
                 r = "1" if libc.fnmatch(pb, sb, fl) == 0 else "0"
                 if r != ibits[k]:
                     ref_bad.append((p, ci, subs[k], ibits[k], r))
                     break
+        elif not ci and itext != "panic" and len(ibits) == len(subs):
+            # outside glibc's domain: the strict reading of the POSIX text decides (an ill-formed "[:" ... leaves the "[" literal); glibc
+            # reads some of these as one bracket, which is accepted as the other defensible reading - but only for the pattern as a whole
+            pieces = posix_pieces(p)
+            if pieces != "unknown":
+                strict = [False if pieces is None else posix_fnmatch(pieces, sx) for sx in subs]
+                ks = [k for k in range(len(subs)) if strict[k] is not None]
+                dis = [k for k in ks if ibits[k] != ("1" if strict[k] else "0")]
+                if dis:
+                    pb = p.encode()
+                    gl = [k for k in ks if subs[k].isascii() and ibits[k] != ("1" if libc.fnmatch(pb, subs_b[k], 0) == 0 else "0")]
+                    if gl:
+                        k = dis[0]
+                        ref_bad.append((p, ci, subs[k], ibits[k], "1" if strict[k] else "0"))
+                ctx.count(("strict", p), True, "strict-posix-reference")
     ctx.cov["evaluations"] -= len(cases)  # ctx.count already added one per pattern
     for p, ci, s, a, b in bad[:3]:
         ctx.violation("glob %r (caseless=%d) on %r: implementation %s, model %s" % (p, ci, s, a, b),
